@@ -150,18 +150,21 @@ def scan_selection(f: Func, ret: ast.Return) -> t.Tuple[bool, str]:
     for loop in [n for n in body_nodes(f.node) if isinstance(n, ast.For) and isinstance(n.target, ast.Name)]:
         cand = loop.target.id
         for n in ast.walk(loop):
-            if isinstance(n, ast.If):
-                for s in n.body:
-                    if isinstance(s, ast.Assign) and unparse(s.targets[0]) == best and unparse(s.value) == cand:
-                        updates.append((loop, n, cand))
+            if isinstance(n, ast.Assign) and unparse(n.targets[0]) == best and unparse(n.value) == cand:
+                updates.append((loop, n, cand))
     if len(updates) != 1:
-        return False, f"cannot find a single 'if <better>: {best} = <candidate>' update in a loop"
-    loop, ifn, cand = updates[0]
+        return False, f"cannot find a single '{best} = <candidate>' update in a loop"
+    loop, _upd, cand = updates[0]
     fa = {f"{cand}.priority": "priority", f"{cand}.weight": "weight"}
     fb = {f"{best}.priority": "priority", f"{best}.weight": "weight"}
     table = []
+
+    class _Stop(Exception):
+        pass
+
     for vec in ordertab.vectors(["priority", "weight"]):
         sign = ordertab.pair_sign(fa, fb, vec)
+        flags: t.Dict[str, bool] = {}
 
         def atoms(e: ast.expr) -> t.Optional[bool]:
             txt = unparse(e)
@@ -169,10 +172,41 @@ def scan_selection(f: Func, ret: ast.Return) -> t.Tuple[bool, str]:
                 return False  # a best exists already (the first element case is the trivial one)
             if txt in (f"{best} is not None", best):
                 return True
+            if isinstance(e, ast.Name) and e.id in flags:
+                return flags[e.id]
+            if isinstance(e, ast.Constant) and isinstance(e.value, bool):
+                return e.value
             return None
 
+        # one trip of the loop body for this ordering of (candidate, best): is best replaced?
+        def trip(stmts: t.Sequence[ast.stmt]) -> bool:
+            """True when the trip ended early (continue)."""
+            for st in stmts:
+                if isinstance(st, (ast.Pass,)) or (isinstance(st, ast.Expr) and isinstance(st.value, ast.Constant)):
+                    continue
+                if isinstance(st, ast.Continue):
+                    return True
+                if isinstance(st, ast.If):
+                    if trip(st.body if ordertab.eval_pred(st.test, sign, atoms) else st.orelse):
+                        return True
+                    continue
+                if isinstance(st, (ast.Assign, ast.AnnAssign)) and st.value is not None:
+                    tg = st.targets[0] if isinstance(st, ast.Assign) else st.target
+                    if isinstance(st, ast.Assign) and len(st.targets) != 1 or not isinstance(tg, ast.Name):
+                        raise ordertab.NotOrderPredicate(unparse(st))
+                    if tg.id == best:
+                        if unparse(st.value) != cand:
+                            raise ordertab.NotOrderPredicate(unparse(st))
+                        flags["<replaced>"] = True
+                        continue
+                    flags[tg.id] = ordertab.eval_pred(st.value, sign, atoms)
+                    continue
+                raise ordertab.NotOrderPredicate(unparse(st))
+            return False
+
         try:
-            val = ordertab.eval_pred(ifn.test, sign, atoms)
+            trip(loop.body)
+            val = flags.get("<replaced>", False)
         except ordertab.NotOrderPredicate as e:
             return False, f"update condition contains '{e}', which is not a comparison of priority/weight between candidate and best"
         # candidate strictly better: priority lower, or equal and weight higher
